@@ -101,4 +101,139 @@ theorem mask_nokey_id (msg mask : List Char)
 example : ∀ key ∈ Gen.sanitizeKeys, isInfix key (pyLower "user=bob pass word=1 ſecret=2".toList) = false := by
   decide
 
+/-! ### rendering `key=value` (bare): the pattern of `_FORMAT_PATTERNS_1` -/
+
+theorem lemma_inRanges_append (n : Nat) : ∀ (a b : List (Nat × Nat)), inRanges n (a ++ b) = (inRanges n a || inRanges n b) := by
+  intro a
+  induction a with
+  | nil => intro b; simp [inRanges]
+  | cons x a ih => intro b; obtain ⟨lo, hi⟩ := x; simp [inRanges, ih, Bool.or_assoc]
+
+theorem lemma_ws_not_digit (c : Char) (h : wsC.test c = true) : digitC.test c = false := by
+  simp only [wsC, digitC, cls, Cls.test, Gen.wsRanges, inRanges] at h ⊢
+  simp at h ⊢
+  omega
+
+theorem lemma_bare_not_ws (c : Char) (h : bareC.test c = true) : wsC.test c = false := by
+  simp only [bareC, wsC, ncls, cls, Cls.test, lemma_inRanges_append] at h ⊢
+  simp at h ⊢
+  exact h.1
+
+theorem lemma_matchPat_eq_bare (K K' ds w1 w2 secret post : List Char)
+    (hK : keyMatch K K' = true) (hds : ∀ c ∈ ds, digitC.test c = true) (hw1 : ∀ c ∈ w1, wsC.test c = true)
+    (hw2 : ∀ c ∈ w2, wsC.test c = true) (hsec : secret ≠ []) (hsecV : ∀ c ∈ secret, bareC.test c = true)
+    (hpost : ∀ c, post.head? = some c → bareC.test c = false) :
+    matchPat (tplEqBare.inst (keyItems K)) (K' ++ (ds ++ (w1 ++ ('=' :: (w2 ++ (secret ++ post)))))) =
+      some ⟨(secret ++ post).length, post.length, post.length⟩ := by
+  unfold matchPat
+  simp only [tplEqBare, Template.inst, instItems, star, one, plus]
+  rw [matchSeq_keyItems, keyPrefix_of_keyMatch K K' _ hK, if_pos rfl]
+  rw [← keyMatch_length K K' hK, List.drop_left]
+  -- [0-9]*
+  apply matchSeq_cons_greedy _ _ _ ds _ _ rfl (Nat.zero_le _) hds
+  · apply head_append_of_all _ w1 _ (fun c hc => lemma_ws_not_digit c (hw1 c hc))
+    intro c hc; simp at hc; subst hc; decide
+  -- \s*
+  apply matchSeq_cons_greedy _ _ _ w1 _ _ rfl (Nat.zero_le _) hw1
+  · intro c hc; simp at hc; subst hc; decide
+  -- [=]
+  rw [matchSeq_one]
+  simp only [show eqC.test '=' = true by decide, if_true]
+  -- \s*
+  apply matchSeq_cons_greedy _ _ _ w2 _ _ rfl (Nat.zero_le _) hw2
+  · intro c hc
+    cases secret with
+    | nil => exact absurd rfl hsec
+    | cons x xs => simp at hc; subst hc; exact lemma_bare_not_ws _ (hsecV _ (by simp))
+  -- [^\s'"]+ , end of pattern
+  apply matchSeq_cons_greedy _ _ _ secret post _ rfl _ hsecV hpost
+  · simp [matchSeq]
+  · cases secret with
+    | nil => exact absurd rfl hsec
+    | cons x xs => simp
+
+/-- **Rendering `key = value` (bare), one pattern.**  For every key `K`, every spelling `K'` of it that the
+compiled pattern accepts (any letter case, and the non-ASCII characters IGNORECASE equates), every digit
+suffix, any whitespace around `=`, every non-empty secret over the value class of the generated template
+(`[^\s'"]`, so regex metacharacters, `=`, `^`, non-ASCII … included), every mask, every prefix in which the
+key does not start before the rendering, every suffix that does not continue the value and does not contain
+the key: `re.sub` of the `_FORMAT_PATTERNS_1` pattern of `K` replaces exactly the value by the mask.
+
+`_partial`: this is the substitution of the *one* pattern that is responsible for the rendering (full
+generality in key, spelling, secret, mask and surroundings).  Missing for the statement about
+`mask_password` as a whole: that the ten `_FORMAT_PATTERNS_2` patterns and the WILDCARD pattern of `K`, and
+the patterns of every other key present in the message, leave this message alone (they do not in the listed
+classes KF_C04_NESTED / KF_C04_FLAGVALUE; the correspondence and the search cover the composition). -/
+theorem mask_rendering_eq_bare_partial (K K' ds w1 w2 secret pre post mask : List Char)
+    (hK : keyMatch K K' = true) (hds : ∀ c ∈ ds, digitC.test c = true) (hw1 : ∀ c ∈ w1, wsC.test c = true)
+    (hw2 : ∀ c ∈ w2, wsC.test c = true) (hsec : secret ≠ []) (hsecV : ∀ c ∈ secret, bareC.test c = true)
+    (hpost : ∀ c, post.head? = some c → bareC.test c = false)
+    (hpre : ∀ j, j < pre.length →
+      keyPrefix K (pre.drop j ++ (K' ++ ds ++ w1 ++ ['='] ++ w2 ++ secret ++ post)) = false)
+    (hpostK : occursCI K post = false) :
+    subPat (tplEqBare.inst (keyItems K)) rep1 mask (pre ++ (K' ++ ds ++ w1 ++ ['='] ++ w2 ++ secret ++ post))
+      = pre ++ (K' ++ ds ++ w1 ++ ['='] ++ w2 ++ mask ++ post) := by
+  have hkey : TItem.key ∈ tplEqBare.g1 := by simp [tplEqBare]
+  unfold subPat
+  rw [subAux_prefix]
+  · congr 1
+    -- the match at the rendering
+    have hassoc : K' ++ ds ++ w1 ++ ['='] ++ w2 ++ secret ++ post
+        = (K' ++ ds ++ w1 ++ ['='] ++ w2 ++ secret) ++ post := by simp
+    have hm := lemma_matchPat_eq_bare K K' ds w1 w2 secret post hK hds hw1 hw2 hsec hsecV hpost
+    have hflat : K' ++ (ds ++ (w1 ++ ('=' :: (w2 ++ (secret ++ post)))))
+        = (K' ++ ds ++ w1 ++ ['='] ++ w2 ++ secret) ++ post := by simp
+    rw [hflat] at hm
+    rw [hassoc, subAux_match _ (K' ++ ds ++ w1 ++ ['='] ++ w2 ++ secret) post (K' ++ ds ++ w1 ++ ['='] ++ w2 ++ mask)]
+    · have := subPat_noKey tplEqBare rep1 K mask post hkey hpostK
+      unfold subPat at this
+      rw [this]
+    · simp
+    · simp only [matchRepl, hm]
+      have h1 : (K' ++ ds ++ w1 ++ ['='] ++ w2 ++ secret ++ post).length - post.length
+          = (K' ++ ds ++ w1 ++ ['='] ++ w2 ++ secret).length := by
+        simp only [List.length_append, List.length_cons, List.length_nil]; omega
+      have h2 : K' ++ ds ++ w1 ++ ['='] ++ w2 ++ secret ++ post
+          = (K' ++ ds ++ w1 ++ ['='] ++ w2) ++ (secret ++ post) := by simp
+      rw [h1]
+      congr 2
+      rw [h2, take_length_sub]
+      simp [rep1, expand]
+  · intro j hj
+    apply matchRepl_none
+    unfold matchPat
+    simp only [tplEqBare, Template.inst, instItems]
+    rw [matchSeq_keyItems, hpre j hj]
+    simp
+
+/-- non-vacuity: a concrete instance of every hypothesis (mixed-case key with a digit suffix, a secret made of
+    regex metacharacters and a non-ASCII case-fold character, neutral surroundings) -/
+example :
+    let K := "password".toList; let K' := "PassWord".toList; let ds := "12".toList
+    let w1 := " ".toList; let w2 : List Char := []; let secret := "a^b$c.*ſ=".toList
+    let pre := "user=x pass ".toList; let post := " and more".toList
+    keyMatch K K' = true ∧ (∀ c ∈ ds, digitC.test c = true) ∧ (∀ c ∈ w1, wsC.test c = true) ∧
+    (∀ c ∈ w2, wsC.test c = true) ∧ secret ≠ [] ∧ (∀ c ∈ secret, bareC.test c = true) ∧
+    (∀ c, post.head? = some c → bareC.test c = false) ∧
+    (∀ j, j < pre.length → keyPrefix K (pre.drop j ++ (K' ++ ds ++ w1 ++ ['='] ++ w2 ++ secret ++ post)) = false) ∧
+    occursCI K post = false := by
+  decide
+
+/-- … and the whole model on that message (all patterns of all keys) -/
+example : maskPassword "user=x pass PassWord12 =a^b$c.*ſ= and more".toList "***".toList
+    = "user=x pass PassWord12 =*** and more".toList := by decide +kernel
+
+/-- masking an already masked `key=value` message changes nothing (one pattern; same restriction as
+    `mask_rendering_eq_bare_partial`), for every non-empty mask over the value class -/
+theorem mask_idempotent_on_masked_eq_bare_partial (K K' ds w1 w2 pre post mask : List Char)
+    (hK : keyMatch K K' = true) (hds : ∀ c ∈ ds, digitC.test c = true) (hw1 : ∀ c ∈ w1, wsC.test c = true)
+    (hw2 : ∀ c ∈ w2, wsC.test c = true) (hmask : mask ≠ []) (hmaskV : ∀ c ∈ mask, bareC.test c = true)
+    (hpost : ∀ c, post.head? = some c → bareC.test c = false)
+    (hpre : ∀ j, j < pre.length →
+      keyPrefix K (pre.drop j ++ (K' ++ ds ++ w1 ++ ['='] ++ w2 ++ mask ++ post)) = false)
+    (hpostK : occursCI K post = false) :
+    subPat (tplEqBare.inst (keyItems K)) rep1 mask (pre ++ (K' ++ ds ++ w1 ++ ['='] ++ w2 ++ mask ++ post))
+      = pre ++ (K' ++ ds ++ w1 ++ ['='] ++ w2 ++ mask ++ post) :=
+  mask_rendering_eq_bare_partial K K' ds w1 w2 mask pre post mask hK hds hw1 hw2 hmask hmaskV hpost hpre hpostK
+
 end Oslo.Mask
